@@ -209,6 +209,8 @@ def run(project, chk):
     chk.rule("K4", "the forward and inverse matrices written in the code are mutually inverse (constant arithmetic on the literals): |M * M^-1 - I| < 1e-6")
     chk.rule("K5", "safe wrappers: every return is the plain conversion's result under its validity test, or the grey fallback; the fallback's components are provably inside the valid range (interval analysis)")
     chk.not_decided += ["losslessness of the RGB -> OKLCH -> RGB round trip on all 2^24 colours", "H < 360 strictly (float -eps + 360)", "the exact grey / black / white special values beyond what the clamps imply"]
+    from checks._fs_common import closed_form
+    closed_form(project, chk, "K1", [f"{V}.rgb_to_oklch", f"{V}.oklch_to_rgb", f"{V}.linear_to_srgb", f"{V}.srgb_to_linear"], "OKLCH conversions")
     audit(project, chk, "K1", f"{V}.rgb_to_oklch", REF, "forward", pol(), "sRGB -> OKLCH (Ottosson)")
     audit(project, chk, "K2", f"{V}.oklch_to_rgb", REF, "inverse", pol(), "OKLCH -> sRGB (Ottosson)")
     audit(project, chk, "K3", f"{V}.linear_to_srgb", REF, "gamma", pol(var_map={"c": "channel"}), "the inverse sRGB transfer function")
